@@ -13,21 +13,24 @@ VIOLATION_CLASS = {
                       "(Proofs/CertgenSpec.v spec_ext); when a configured template cannot be expanded for the user nothing may be issued (c02_failed_expansion_refused)"),
     7: ("no-error", "a response without certificate must be an error"),
     8: ("extra-names", "the authenticated user's name is the only identity in the certificate (c02_no_other_names): no further principal, critical option, subject attribute or subject-alternative-name entry"),
+    9: ("unverified-account", "a certificate is issued only if the password backend accepts the password for the account the typed name stands for (c02_user_is_normalised)"),
+    11: ("not-an-automation-user", "an IP-restricted certificate is an identity only if its common name is byte for byte a configured automation user (c02_identity_is_account)"),
+    10: ("session-subject", "the session a login mints is for the account the typed name stands for (c02_identity_is_account)"),
 }
 
-def model_oracle(ctx, res):
-    val = res.get("c02_violating")
+def model_oracle(ctx, res, name="c02_violating", idxfile="CasesC02.idx", prefix=""):
+    val = res.get(name)
     if not val or val == "[]":
         return
     lines = []
-    p = os.path.join(ctx.work, "CasesC02.idx")
+    p = os.path.join(ctx.work, idxfile)
     if os.path.exists(p):
         lines = open(p).read().split("\n")
     seen = {}
     for m in re.finditer(r"\(\s*(\d+)(?:%nat)?\s*,\s*(\d+)\s*\)", val):
         i, cls = int(m.group(1)), int(m.group(2))
         cname, oracle = VIOLATION_CLASS.get(cls, ("class-%d" % cls, "property predicate on the observation"))
-        key = "C02:model-oracle:" + cname
+        key = "C02:model-oracle:" + prefix + cname
         n = seen.get(key, 0)
         seen[key] = n + 1
         if n >= 20:
@@ -42,15 +45,20 @@ def run(ctx):
         res = orig(vfile, label, timeout)
         if res is not None:
             model_oracle(ctx, res)
+            # the credential kind x name-spelling family (Model/CertgenIdentObs.v ident_violation)
+            model_oracle(ctx, res, "c02_ident_violating", "CasesC02ident.idx", "identity:")
         return res
     ctx.eval_cases = eval_cases
     return standard(ctx,
         props=[("Props.C02", ["c02_binding", "c02_signed_by_loaded_signer", "c02_published_for_every_initial_list", "c02_other_user_refused", "c02_extensions",
                               "c02_failed_expansion_refused", "c02_names_injective", "c02_no_other_names", "c02_user_is_normalised",
-                              "c02_normalise_idempotent", "c02_old_krb_refuted"])],
-        harness=("TestVerif_C02", ["kmd/common.go", "kmd/creds.go", "kmd/consts.go", "kmd/c01.go", "kmd/c02.go"]),
+                              "c02_identity_is_account", "c02_other_spelling_refused", "c02_normalised_name_certified",
+                              "c02_normalise_idempotent", "c02_normalise_idempotent_okta", "c02_typed_identity_refuted", "c02_old_krb_refuted"])],
+        harness=("TestVerif_C02", ["kmd/common.go", "kmd/creds.go", "kmd/consts.go", "kmd/c01.go", "kmd/c02.go", "kmd/c02ident.go"]),
         cases=("CasesC02.v", [("c02_mismatches", "every decoded certificate (names, key id, key, type, CA flag, usages, extension map, verifying CA, organisations, groups, service methods, PKINIT name) and every refusal = model certgen on the same request"),
-                              ("c02_login_mismatches", "session subject minted by /api/v0/login = model normalise of the submitted name")], "CasesC02.idx"),
+                              ("c02_login_mismatches", "session subject minted by /api/v0/login = model normalise of the submitted name"),
+                              ("c02_ident_mismatches", "credential kind (login by form / by Basic header, Basic header on the request, client certificate, IP-restricted automation certificate) x name spelling (case variants, mail domains, blanks, line feed) x URL segment (as typed / as the account): certificate or refusal, the account the password backend was asked about, the session subject = model ident_certgen / cred_path on the typed name", "CasesC02ident.idx"),
+                              ("c02_okta_filter_mismatches", "the model's Okta user-name filter = the compiled default expression on every typed name of the family", None)], "CasesC02.idx"),
         trusted=["x/crypto/ssh and crypto/x509 encode and decode the certificates (the model's certificate is the abstract certdesc); signatures are checked by the real verifiers against the CA material fetched from /public/sshca and /public/x509ca of the same state",
                  "mvdan.cc/sh shell.Expand is an oracle of the model; the harness calls it on every template string for every user and ships the results (including which templates it rejects for which user)",
                  "the directory (group database) answers are inputs of the model; the harness mirrors its lower-case lookup",
